@@ -83,6 +83,60 @@ CHECKS = {
         design_ref="DESIGN.md section 8, C02",
         technique="Lean conflict-ordering check + schedule evaluation against proved symbolic execution, over real specifications; abstract schedule-independence theorem",
     ),
+    "C04": dict(
+        category="translation_validation",
+        text=("`Spec.realizes` (Lean) is the executable statement of the property: symbolic execution of the id sequence from the "
+              "specification's initial stack with no underflow, DUP/SWAP 1..16, every store exactly once, every dependence respected, each "
+              "operation applied to the operands the specification names (modulo commutativity), final stack as specified. Every sequence "
+              "the real greedy_from_json returns with error == 0 on every explored specification is checked by it (the greedy algorithm "
+              "is not modelled)."),
+        design_ref="DESIGN.md section 8, C04",
+        technique="Lean executable specification of 'realizes' applied to every output of the real greedy back end",
+    ),
+    "C09": dict(
+        category="translation_validation",
+        text=("Synthesized and shipped combined-json documents are run through the real command line under several option sets; an "
+              "independent reader compares metadata, every skeleton item (tags, jumps, terminals, split instructions) with all its fields, "
+              "checks every emitted item for well-formedness and pseudo-push operands against the input block, re-parses the output with the "
+              "tool's parser, and sends every changed block to the Lean-proved validator. Lean: Asm.rebuild_none/joinShared_subBlocks are the "
+              "theorems behind 'only optimizable segments change'."),
+        design_ref="DESIGN.md section 8, C09",
+        technique="independent reader over real emitted documents + Lean rebuild specification theorems + proved block validator",
+    ),
+    "C10": dict(
+        category="proof",
+        text=("Pipeline.lean models the keep-or-revert loop over arbitrary failing oracles: contract_total, failed_block_unchanged, "
+              "fault_local are proved for every failure pattern; wpow_eq bounds EXP folding to 256 squarings. Tie: the real command line "
+              "is re-run with faults injected into the analysis of a named block, the k-th greedy call and the k-th checker call, and must "
+              "behave as the model says; every generated and extreme-operand block must complete within a 10 s / 3 GiB budget without an "
+              "exception escaping (runtime validation; partial for the resource budget)."),
+        design_ref="DESIGN.md section 8, C10",
+        technique="Lean theorems about a pipeline model with failing oracles + fault-injection correspondence with the real CLI + per-block resource budget",
+    ),
+    "C15": dict(
+        category="exploration",
+        text=("Differential round-trip: to_json(parse(D)) = D modulo the PUSH0 spelling for all shipped, test and synthesized documents "
+              "under both PUSH0 settings; parse(to_plain(B)) = B and parse(to_plain_with_byte_number(B)) = B for generated blocks; seven "
+              "spellings of each constant parse to its value. No Lean theorem backs this check (stated in DESIGN.md)."),
+        design_ref="DESIGN.md section 8, C15",
+        technique="differential round-trip of the real parser/printers (no theorem)",
+    ),
+    "C16": dict(
+        category="translation_validation",
+        text=("The published bounds are existential: a witness sequence (the greedy result, once accepted by Lean's Spec.realizes, with "
+              "its peak stack computed by Lean) shows init_progr_len and max_sk_sz feasible; min_length must not exceed the length of any "
+              "realizing sequence seen; original_instrs must be the sub-block. A witness outside the bounds decides nothing."),
+        design_ref="DESIGN.md section 8, C16",
+        technique="witness validation with the Lean 'realizes' checker over real specifications",
+    ),
+    "C17": dict(
+        category="exploration",
+        text=("Documents and plain blocks are run with PUSH0 disabled and enabled: no PUSH0 item may be emitted when disabled; the tool's "
+              "cost figures for input and output are compared with the Lean reference cost computed with the same flag; -c <contract> must "
+              "produce exactly that contract's assembly of the full run."),
+        design_ref="DESIGN.md section 8, C17",
+        technique="differential runs of the real CLI under both flag values with the Lean reference cost function",
+    ),
 }
 
 NOT_APPLICABLE = [
